@@ -1,6 +1,7 @@
 package main
 
 import (
+	"fmt"
 	"math/rand"
 	"time"
 	"unicode"
@@ -34,9 +35,43 @@ func pwCorpus() []string {
 	return out
 }
 
+// pwJudge: what a difference between parse.go and the proved model AL.PW means for a property. The theorems of
+// AL/Props/C13Parse speak about the diagnostics the model produces (unknown / repeated / missing keys are reported, at the
+// key, and nothing of the siblings is lost): where the real parser's diagnostics differ from the model's on some input,
+// that input fails the property ("diag"). The theorems of C03Parse / C08Parse speak about the AST ("ast").
+func pwJudge(mode string) func(cs Case) (string, string) {
+	if mode == "" {
+		return nil
+	}
+	return func(cs Case) (string, string) {
+		i, m := strings.SplitN(cs.Impl, "|", 2), strings.SplitN(cs.Model, "|", 2)
+		if len(i) != 2 || len(m) != 2 {
+			return "", ""
+		}
+		if (mode == "diag" || mode == "both") && i[0] != m[0] {
+			return "syntax-diagnostics-differ-from-proved-model", "the workflow parser's diagnostics for this source differ from those of the model for which the key checks are proved (AL.PW)"
+		}
+		if (mode == "ast" || mode == "both") && i[1] != m[1] {
+			return "ast-differs-from-proved-model", "the AST the workflow parser builds for this source differs from the one of the model for which scalar storage / id folding are proved (AL.PW)"
+		}
+		return "", ""
+	}
+}
+
 // pwTie runs the `parsewf` tie over the sources; returns the number of cases compared
-func pwTie(c *ctx, r *Report, srcs []string, note string) (int, error) {
+func pwTie(c *ctx, r *Report, srcs []string, note string, mode ...string) (int, error) {
 	b := &batch{}
+	if len(mode) > 0 {
+		b.judge = pwJudge(mode[0])
+		b.srcOf = func(cs Case) string { return cs.Input["src"] }
+		b.rerun = func(orig Case, src string) (string, string, Case) {
+			line, impl, ok := pwCase(src)
+			if !ok {
+				panic("yaml rejects")
+			}
+			return line, impl, Case{Op: "parsewf", Input: map[string]string{"src": src}, Note: orig.Note}
+		}
+	}
 	n := 0
 	for _, s := range srcs {
 		var line, impl string
@@ -65,6 +100,35 @@ func pwTie(c *ctx, r *Report, srcs []string, note string) (int, error) {
 	}
 	_, err := b.flush(c, r)
 	return n, err
+}
+
+// pwStandard: the tie as the checks of C13 / C03 / C08 / C01 / C07 run it: the corpus, every mutant of the three base
+// workflows, and `per` random mutants of each corpus file
+func pwStandard(c *ctx, r *Report, mode string, per int, bases bool) error {
+	corpus := pwCorpus()
+	n0 := r.Evaluations
+	if _, err := pwTie(c, r, corpus, "corpus", mode); err != nil {
+		return err
+	}
+	rng := rand.New(rand.NewSource(c.seed + 7))
+	if bases {
+		for _, name := range []string{"a.yml", "b.yml", "c.yml"} {
+			if _, err := pwTie(c, r, pwMutants(wfBases[name], rng, 0), "mutant of base "+name, mode); err != nil {
+				return err
+			}
+		}
+	}
+	if per > 0 {
+		var all []string
+		for _, s := range corpus {
+			all = append(all, pwMutants(s, rng, per)...)
+		}
+		if _, err := pwTie(c, r, all, "mutant of a corpus file", mode); err != nil {
+			return err
+		}
+	}
+	r.Notes = append(r.Notes, fmt.Sprintf("parsewf tie (parse.go vs AL.PW, all diagnostics + whole AST): %d sources", r.Evaluations-n0))
+	return nil
 }
 
 func runPW(c *ctx, r *Report) error {
